@@ -106,6 +106,27 @@ struct alignas(32) Aligned32
   bool operator>=(const Aligned32 &o) const { return d[0] >= o.d[0]; }
 };
 
+// a payload that knows where it lives: no destructor of its own (trivially destructible), but every copy has to go
+// through its copy constructor / assignment, or `self` points at somebody else
+struct SelfPtr
+{
+  int v;
+  const SelfPtr *self;
+  SelfPtr() : v(-1), self(this) {}
+  SelfPtr(int x) : v(x), self(this) {}
+  SelfPtr(const SelfPtr &o) : v(o.v), self(this) {}
+  SelfPtr &operator=(const SelfPtr &o)
+  {
+    v = o.v;
+    return *this;
+  }
+  bool operator==(const SelfPtr &o) const { return v == o.v; }
+  bool operator<(const SelfPtr &o) const { return v < o.v; }
+  bool operator<=(const SelfPtr &o) const { return v <= o.v; }
+  bool operator>(const SelfPtr &o) const { return v > o.v; }
+  bool operator>=(const SelfPtr &o) const { return v >= o.v; }
+};
+
 struct NoEq  // a type without operator==
 {
   int x;
@@ -170,6 +191,16 @@ struct P<Tracked>
   static Tracked make(int k) { return Tracked(k); }
   static Src src(int k) { return k; }
   static bool eq(const Tracked &a, int k) { return a.v == k && a.payload == "tracked-payload-on-the-heap-" + std::to_string(k); }
+  static bool movedFromKnown() { return true; }
+};
+template <>
+struct P<SelfPtr>
+{
+  typedef int Src;
+  static const char *name() { return "SelfPtr"; }
+  static SelfPtr make(int k) { return SelfPtr(k); }
+  static Src src(int k) { return k; }
+  static bool eq(const SelfPtr &a, int k) { return a.v == k && a.self == &a; }
   static bool movedFromKnown() { return true; }
 };
 template <typename T>
@@ -685,12 +716,15 @@ int main(int argc, char **argv)
             alignmentInAggregate();
           else
             envVars(k);
-          optionalHistory<Tracked>(r, k, len);
+          if (k % 4 < 2)
+            optionalHistory<Tracked>(r, k, len);
+          else
+            optionalHistory<SelfPtr>(r, k, len);
           break;
         }
       },
       20000, 1000, [&](long k) {
-        const char *kinds[] = {"Optional<int>", "Optional<double>", "Optional<string>", "Optional<vector<int>>", "Optional<Tracked>", "Optional<Aligned32>", "Any", "Any", "aggregate/env/Optional<Tracked>"};
+        const char *kinds[] = {"Optional<int>", "Optional<double>", "Optional<string>", "Optional<vector<int>>", "Optional<Tracked>", "Optional<Aligned32>", "Any", "Any", "aggregate/env/Optional<Tracked|SelfPtr>"};
         return std::string("C09-history #") + std::to_string(k) + " " + kinds[k % 9];
       });
   return vh::finish();
